@@ -273,6 +273,121 @@ def tgsw_decrypt_by_interpretation(chk, v, gd):
     return None
 
 
+def check_lwe_encrypt(chk, v, sign_ph=1, rule="R1"):
+    """both LWE encryption functions: phase(encrypt(m)) = m + noise (shared with C07: a fresh ciphertext carries the configured noise only if
+    the mask terms cancel in the phase)"""
+    vn = v.name
+    def encrypt_enumerated(e, res, msg, key, why):
+        """the function is interpreted for n = 0..17 with the key as indeterminates and every call result (noise, mask draws) as a
+        fresh atom: afterwards b - sign * sum_{i<n} a[i]*key[i] (a[i] as finally stored) must be free of the key and be
+        gaussian32(message, .) or message + (terms without message)"""
+        from sa import concrete, symexec
+        effs = symexec.run_function(v, e, hooks=inl())[0]
+        n_e = sym.arrow(P(key, "params"), "n")
+        M = sym.sym(msg)
+        roots_ = (sym.sym(res), sym.sym(key))
+        for nv in range(0, 18):
+            st = concrete.PolyState()
+
+            def h(kind, x, env):
+                if kind in ("local", "store"):
+                    st.assign(x, env)
+                elif kind == "call":
+                    if any(isinstance(a_, tuple) and sym.root_of(a_) in roots_ for a_ in x.get("args", [])):
+                        raise concrete.NotEvaluable("call of %s on the sample or the key at line %s" % (x["name"], x.get("l")))
+                    st.called(x)
+                elif kind in ("asm", "unknown", "alloc", "delete"):
+                    raise concrete.NotEvaluable("%s at line %s" % (kind, x.get("l")))
+                return None
+            try:
+                concrete.interpret(effs, {n_e: nv}, h, on_segment=st.segment)
+                b_ = st.read(concrete.lvalue_location(P(res, "b"), {}))
+                tot = {}
+                for i_ in range(nv):
+                    a_i = st.read(concrete.lvalue_location(sym.idx(P(res, "a"), I(i_)), {}))
+                    k_i = {(("init", concrete.lvalue_location(sym.idx(P(key, "key"), I(i_)), {})),): 1}
+                    if a_i is None:
+                        raise concrete.NotEvaluable("mask coefficient %d is not a number" % i_)
+                    tot = concrete.lin_add(tot, concrete._pmul(a_i, k_i))
+                if b_ is None:
+                    raise concrete.NotEvaluable("b is not a polynomial in the key, the draws and the message")
+            except concrete.NotEvaluable as ex_:
+                chk.broken("%s: %s; by enumeration: %s" % (e.name, why, ex_))
+            resid = {m: c for m, c in concrete.lin_add(b_, tot, -sign_ph).items() if c % (1 << 32)}
+            keyed = [m for m in resid if any(isinstance(a_, tuple) and a_[0] == "init" and a_[1][0] == sym.sym(key) for a_ in m)]
+            if keyed:
+                return ["for n = %d: b - (%+d)*sum a[i]*key[i] = %s still depends on the key (the phase does not cancel the mask)" % (
+                    nv, sign_ph, concrete.show_poly(resid, 5))]
+            stale = [m for m in resid if any(isinstance(a_, tuple) and a_[0] == "init" and a_[1][0] == sym.sym(res) for a_ in m)]
+            if stale:
+                return ["for n = %d: b keeps a term of the sample's previous content: %s" % (nv, concrete.show_poly(resid, 5))]
+            mterms = {m: c for m, c in resid.items() if (M,) == m or any(isinstance(a_, tuple) and a_[0] == "draw" and a_[1][1] == "gaussian32"
+                                                                           and a_[1][2] and a_[1][2][0] == M for a_ in m)}
+            okm = len(mterms) == 1 and list(mterms.values())[0] % (1 << 32) == 1 and all(len(m) == 1 for m in mterms)
+            if okm and list(mterms)[0] != (M,):
+                g = v.fn("gaussian32")
+                gr = [p_ for p_ in summ.pieces(v, g, hooks=NOINLINE)[0] if p_["kind"] == "return"]
+                gm = sym.sym(g.params[0]["n"])
+                okm = len(gr) == 1 and sym.linear_in(gr[0]["val"], gm) is not None and sym.linear_in(gr[0]["val"], gm)[0] == I(1)
+            if not okm:
+                return ["for n = %d: b - sum a[i]*key[i] = %s: the message does not enter with coefficient 1" % (nv, concrete.show_poly(resid, 5))]
+        return []
+    for ename in ("lweSymEncrypt", "lweSymEncryptWithExternalNoise"):
+        e = v.fn(ename)
+        eps, _ = summ.pieces(v, e, hooks=inl())
+        eps = summ.forward_stored_calls(summ.fold_accumulators(eps))
+        res = e.params[0]["n"]
+        msg = e.params[1]["n"]
+        key = e.params[-1]["n"]
+        bst = [p for p in eps if p["kind"] == "store" and p["lv"] == P(res, "b")]
+        problems = []
+        init = [p for p in bst if not p["loops"] and p["op"] == "="]
+        accb = [p for p in bst if p["loops"] and p["op"] in ("+=", "-=")]
+        onto = [p for p in bst if not p["loops"] and p["op"] in ("+=", "-=")]
+        if not init and onto:
+            problems.append("b is never assigned: message, noise and <a,s> are ADDED to whatever b held before (line %s), so encrypting into a sample "
+                            "that was used before (or anything but a freshly constructed one) gives phase = old b + m + noise" % onto[0]["line"])
+        elif len(init) != 1 or len(accb) != 1:
+            # not "b = m + noise; b += a[i]*key[i] in one loop" (partial sums in a helper, tails, several passes): by interpretation
+            problems.extend(encrypt_enumerated(e, res, msg, key, "b is written by %d initialisations and %d accumulations" % (len(init), len(accb))))
+        else:
+            iv = init[0]["val"]
+            # message + noise: either message + dtot32(noise) or gaussian32(message, alpha) (whose summary is message + dtot32(err))
+            M = sym.sym(msg)
+            okmsg = False
+            if iv[0] == "call" and iv[1] == "gaussian32" and iv[2][0] == M:
+                g = v.fn("gaussian32")
+                gps, _ = summ.pieces(v, g, hooks=NOINLINE)
+                gr = [p for p in gps if p["kind"] == "return"]
+                gm = sym.sym(g.params[0]["n"])
+                okmsg = len(gr) == 1 and sym.linear_in(gr[0]["val"], gm) is not None and sym.linear_in(gr[0]["val"], gm)[0] == I(1)
+            else:
+                lin = sym.linear_in(iv, M)
+                okmsg = lin is not None and lin[0] == I(1)
+            if not okmsg:
+                problems.append("b is initialised to %s: the message does not enter with coefficient 1" % sym.show(iv))
+            lp = accb[0]["loops"][0]
+            j = lp["var"]
+            n_e = sym.arrow(P(key, "params"), "n")
+            want = sym.mul(sym.idx(P(res, "a"), j), sym.idx(P(key, "key"), j))
+            sgn = 1 if accb[0]["op"] == "+=" else -1
+            if not summ.visits(lp, ZERO, n_e):
+                problems.append("mask*key accumulation over [%s %s %s), the phase uses [0, key->params->n)" % (
+                    sym.show(lp["lo"]), lp["cmp"], sym.show(lp["hi"])))
+            if accb[0]["val"] != want:
+                problems.append("accumulated product %s, the phase subtracts a[i]*key[i]" % sym.show(accb[0]["val"]))
+            if sgn != sign_ph:
+                problems.append("encryption adds the product with sign %+d, the phase removes it with sign %+d" % (sgn, -sign_ph))
+            # fresh mask over the same range
+            ast = [p for p in eps if p["kind"] == "store" and p["lv"][0] == "idx" and p["lv"][1] == P(res, "a")]
+            if len(ast) != 1 or ast[0]["loops"][0] is not lp or ast[0]["lv"][2] != j:
+                problems.append("mask coefficients are not all assigned in the same loop")
+        chk.require(not problems, rule, "%s: phase(encrypt(m)) = m + noise (mask*key terms cancel for every n)" % ename, where=e.where,
+                    ok="b = m + noise + sum_{i<n} a[i]*key[i] with the phase's range, operands and opposite sign", bad="; ".join(problems), variant=vn)
+        if rule == "R1":
+            chk.vcount(vn, "R1.lwe_encrypt_functions")
+
+
 def run(chk):
     prog = Program()
     chk.explanation = (
@@ -395,114 +510,7 @@ def run(chk):
                     bad="; ".join(problems), variant=vn)
         if sign_ph is None:
             sign_ph = 1
-        def encrypt_enumerated(e, res, msg, key, why):
-            """the function is interpreted for n = 0..17 with the key as indeterminates and every call result (noise, mask draws) as a
-            fresh atom: afterwards b - sign * sum_{i<n} a[i]*key[i] (a[i] as finally stored) must be free of the key and be
-            gaussian32(message, .) or message + (terms without message)"""
-            from sa import concrete, symexec
-            effs = symexec.run_function(v, e, hooks=inl())[0]
-            n_e = sym.arrow(P(key, "params"), "n")
-            M = sym.sym(msg)
-            roots_ = (sym.sym(res), sym.sym(key))
-            for nv in range(0, 18):
-                st = concrete.PolyState()
-
-                def h(kind, x, env):
-                    if kind in ("local", "store"):
-                        st.assign(x, env)
-                    elif kind == "call":
-                        if any(isinstance(a_, tuple) and sym.root_of(a_) in roots_ for a_ in x.get("args", [])):
-                            raise concrete.NotEvaluable("call of %s on the sample or the key at line %s" % (x["name"], x.get("l")))
-                        st.called(x)
-                    elif kind in ("asm", "unknown", "alloc", "delete"):
-                        raise concrete.NotEvaluable("%s at line %s" % (kind, x.get("l")))
-                    return None
-                try:
-                    concrete.interpret(effs, {n_e: nv}, h, on_segment=st.segment)
-                    b_ = st.read(concrete.lvalue_location(P(res, "b"), {}))
-                    tot = {}
-                    for i_ in range(nv):
-                        a_i = st.read(concrete.lvalue_location(sym.idx(P(res, "a"), I(i_)), {}))
-                        k_i = {(("init", concrete.lvalue_location(sym.idx(P(key, "key"), I(i_)), {})),): 1}
-                        if a_i is None:
-                            raise concrete.NotEvaluable("mask coefficient %d is not a number" % i_)
-                        tot = concrete.lin_add(tot, concrete._pmul(a_i, k_i))
-                    if b_ is None:
-                        raise concrete.NotEvaluable("b is not a polynomial in the key, the draws and the message")
-                except concrete.NotEvaluable as ex_:
-                    chk.broken("%s: %s; by enumeration: %s" % (e.name, why, ex_))
-                resid = {m: c for m, c in concrete.lin_add(b_, tot, -sign_ph).items() if c % (1 << 32)}
-                keyed = [m for m in resid if any(isinstance(a_, tuple) and a_[0] == "init" and a_[1][0] == sym.sym(key) for a_ in m)]
-                if keyed:
-                    return ["for n = %d: b - (%+d)*sum a[i]*key[i] = %s still depends on the key (the phase does not cancel the mask)" % (
-                        nv, sign_ph, concrete.show_poly(resid, 5))]
-                stale = [m for m in resid if any(isinstance(a_, tuple) and a_[0] == "init" and a_[1][0] == sym.sym(res) for a_ in m)]
-                if stale:
-                    return ["for n = %d: b keeps a term of the sample's previous content: %s" % (nv, concrete.show_poly(resid, 5))]
-                mterms = {m: c for m, c in resid.items() if (M,) == m or any(isinstance(a_, tuple) and a_[0] == "draw" and a_[1][1] == "gaussian32"
-                                                                               and a_[1][2] and a_[1][2][0] == M for a_ in m)}
-                okm = len(mterms) == 1 and list(mterms.values())[0] % (1 << 32) == 1 and all(len(m) == 1 for m in mterms)
-                if okm and list(mterms)[0] != (M,):
-                    g = v.fn("gaussian32")
-                    gr = [p_ for p_ in summ.pieces(v, g, hooks=NOINLINE)[0] if p_["kind"] == "return"]
-                    gm = sym.sym(g.params[0]["n"])
-                    okm = len(gr) == 1 and sym.linear_in(gr[0]["val"], gm) is not None and sym.linear_in(gr[0]["val"], gm)[0] == I(1)
-                if not okm:
-                    return ["for n = %d: b - sum a[i]*key[i] = %s: the message does not enter with coefficient 1" % (nv, concrete.show_poly(resid, 5))]
-            return []
-        for ename in ("lweSymEncrypt", "lweSymEncryptWithExternalNoise"):
-            e = v.fn(ename)
-            eps, _ = summ.pieces(v, e, hooks=inl())
-            eps = summ.forward_stored_calls(summ.fold_accumulators(eps))
-            res = e.params[0]["n"]
-            msg = e.params[1]["n"]
-            key = e.params[-1]["n"]
-            bst = [p for p in eps if p["kind"] == "store" and p["lv"] == P(res, "b")]
-            problems = []
-            init = [p for p in bst if not p["loops"] and p["op"] == "="]
-            accb = [p for p in bst if p["loops"] and p["op"] in ("+=", "-=")]
-            onto = [p for p in bst if not p["loops"] and p["op"] in ("+=", "-=")]
-            if not init and onto:
-                problems.append("b is never assigned: message, noise and <a,s> are ADDED to whatever b held before (line %s), so encrypting into a sample "
-                                "that was used before (or anything but a freshly constructed one) gives phase = old b + m + noise" % onto[0]["line"])
-            elif len(init) != 1 or len(accb) != 1:
-                # not "b = m + noise; b += a[i]*key[i] in one loop" (partial sums in a helper, tails, several passes): by interpretation
-                problems.extend(encrypt_enumerated(e, res, msg, key, "b is written by %d initialisations and %d accumulations" % (len(init), len(accb))))
-            else:
-                iv = init[0]["val"]
-                # message + noise: either message + dtot32(noise) or gaussian32(message, alpha) (whose summary is message + dtot32(err))
-                M = sym.sym(msg)
-                okmsg = False
-                if iv[0] == "call" and iv[1] == "gaussian32" and iv[2][0] == M:
-                    g = v.fn("gaussian32")
-                    gps, _ = summ.pieces(v, g, hooks=NOINLINE)
-                    gr = [p for p in gps if p["kind"] == "return"]
-                    gm = sym.sym(g.params[0]["n"])
-                    okmsg = len(gr) == 1 and sym.linear_in(gr[0]["val"], gm) is not None and sym.linear_in(gr[0]["val"], gm)[0] == I(1)
-                else:
-                    lin = sym.linear_in(iv, M)
-                    okmsg = lin is not None and lin[0] == I(1)
-                if not okmsg:
-                    problems.append("b is initialised to %s: the message does not enter with coefficient 1" % sym.show(iv))
-                lp = accb[0]["loops"][0]
-                j = lp["var"]
-                n_e = sym.arrow(P(key, "params"), "n")
-                want = sym.mul(sym.idx(P(res, "a"), j), sym.idx(P(key, "key"), j))
-                sgn = 1 if accb[0]["op"] == "+=" else -1
-                if not summ.visits(lp, ZERO, n_e):
-                    problems.append("mask*key accumulation over [%s %s %s), the phase uses [0, key->params->n)" % (
-                        sym.show(lp["lo"]), lp["cmp"], sym.show(lp["hi"])))
-                if accb[0]["val"] != want:
-                    problems.append("accumulated product %s, the phase subtracts a[i]*key[i]" % sym.show(accb[0]["val"]))
-                if sgn != sign_ph:
-                    problems.append("encryption adds the product with sign %+d, the phase removes it with sign %+d" % (sgn, -sign_ph))
-                # fresh mask over the same range
-                ast = [p for p in eps if p["kind"] == "store" and p["lv"][0] == "idx" and p["lv"][1] == P(res, "a")]
-                if len(ast) != 1 or ast[0]["loops"][0] is not lp or ast[0]["lv"][2] != j:
-                    problems.append("mask coefficients are not all assigned in the same loop")
-            chk.require(not problems, "R1", "%s: phase(encrypt(m)) = m + noise (mask*key terms cancel for every n)" % ename, where=e.where,
-                        ok="b = m + noise + sum_{i<n} a[i]*key[i] with the phase's range, operands and opposite sign", bad="; ".join(problems), variant=vn)
-            chk.vcount(vn, "R1.lwe_encrypt_functions")
+        check_lwe_encrypt(chk, v, sign_ph, "R1")
         # ------------------------------------------------ R2 TLWE
         addname, subname = product_siblings(chk, v)
         ez = v.fn("tLweSymEncryptZero")
